@@ -26,7 +26,7 @@ import (
 	"verifh/kit"
 )
 
-const nDims = 9 // 7 yes/no dimensions + a 2-bit annotation shape (bits 7-8)
+const nDims = 10 // 7 yes/no dimensions + a 2-bit annotation shape (bits 7-8) + "no labels at all" (bit 9)
 
 var dimNames = []string{"labels", "annotations", "spec-scalar", "spec-nested", "status", "generation", "finalizers", "annotation-key-removed", "annotation-key-added"}
 
@@ -45,6 +45,9 @@ func meta(diff uint, gen int64) metav1.ObjectMeta {
 		Labels: map[string]string{"l": "1"}, Annotations: map[string]string{"a": "1", "b": "1"}, Finalizers: []string{"f1"}}
 	if diff&1 != 0 {
 		m.Labels = map[string]string{"l": "2", "m": "x"}
+	}
+	if diff&512 != 0 {
+		m.Labels = nil // an object without labels: stored that way it is the shape a "restore the old labels" step can mishandle
 	}
 	if diff&2 != 0 {
 		m.Annotations["a"] = "2"
@@ -133,6 +136,9 @@ func diffNames(d uint) string {
 	case 3:
 		s += "all-annotations-removed "
 	}
+	if d&512 != 0 {
+		s += "no-labels "
+	}
 	if s == "" {
 		return "(none)"
 	}
@@ -195,6 +201,9 @@ func chains(c *ev.Check, k kind, g0 int64, maxGen int64) {
 		}
 		for _, e := range entries {
 			for d := uint(0); d < 1<<nDims; d++ {
+				if d&(32|64) != 0 {
+					continue // submitted generation / finalizers: covered by the flat product, they do not create new stored shapes worth chaining
+				}
 				old, obj := n.o.DeepCopyObject(), k.mk(d, gen(n.o))
 				strat := rest.RESTUpdateStrategy(k.main)
 				if e == "status" {
@@ -350,6 +359,6 @@ func main() {
 		"transitions":         c.Counter("chain_transitions"),
 		"evaluations":         c.Counter("updates") + c.Counter("creates"),
 		"distinct_nontrivial": c.DistinctCount("cases"),
-		"rule":                "full product: 3 strategy/kind configurations x old generation {0,1,7} x 2^7 subsets of {labels, annotation value, spec scalar, nested spec element, status, submitted generation, finalizers} x 4 annotation shapes {-, key removed, key added, all removed} differing between stored and submitted object; each through main update, status update (where served) and create. Distinct = (kind, entry point, subset, generation). Chains: breadth-first over every stored object reachable through the strategies themselves (dedup on the JSON form, generation growth capped), every (entry point x subset) step judged from each.",
+		"rule":                "full product: 3 strategy/kind configurations x old generation {0,1,7} x 2^7 subsets of {labels, annotation value, spec scalar, nested spec element, status, submitted generation, finalizers} x 4 annotation shapes {-, key removed, key added, all removed} x {labels present, no labels} differing between stored and submitted object; each through main update, status update (where served) and create. Distinct = (kind, entry point, subset, generation). Chains: breadth-first over every stored object reachable through the strategies themselves (dedup on the JSON form, generation growth capped), every (entry point x subset) step judged from each.",
 	})
 }
